@@ -1,14 +1,14 @@
 """C16 — MinErrorFlow returns a closest non-negative flow on the same graph"""
-from contracts import c13
+from contracts import c13, enc
 
 LEVEL = "other"
 TRUSTED = ['A1 solver contract']
 ASSUMPTIONS = []
-EXPLANATION = ('Proved (PyVC, unbounded): MinErrorFlow.solve stage logic (solved only after an optimal last run, no stale first-stage solution, nothing stored on failure) and the getters raising when unsolved. Bounded, solver-independent (SymMILP, when present): every admitted assignment is non-negative, conserving at inner nodes and bounds the per-edge change. Bounded (RC): result vs an exact L1 oracle (z3 with certified optimum), same graph, reported error = recomputed, (1+eps) bound (rc/p_C16.py).')
+EXPLANATION = ('Proved (PyVC, unbounded): the ENCODER MinErrorFlow._encode_flow adds exactly: one corrected-flow and one error column per edge in [0, ub] of the requested type, flow conservation at every inner node, error = 0 on ignored edges and error >= |value - corrected| elsewhere - for every assignment of the columns (sound and complete, contracts/enc.py), and raises ValueError exactly for a missing value on a non-ignored edge; MinErrorFlow.solve stage logic (solved only after an optimal last run, no stale first-stage solution, nothing stored on failure) and the getters raising when unsolved. Bounded, solver-independent (SymMILP, when present): every admitted assignment is non-negative, conserving at inner nodes and bounds the per-edge change. Bounded (RC): result vs an exact L1 oracle (z3 with certified optimum), same graph, reported error = recomputed, (1+eps) bound (rc/p_C16.py).')
 
 
 def units(tier):
-    return [u for u in c13.all_units() if "MinErrorFlow" in u.name]
+    return [u for u in c13.all_units() if "MinErrorFlow" in u.name] + [u for u in enc.all_units() if "C16" in u.props]
 
 
 def bounded(tier, seed):
